@@ -67,6 +67,11 @@ func poolChild(a Args) {
 	sock := filepath.Join(a.Dir, fmt.Sprintf("p%d.sock", a.Seed))
 	must(st.ListenUnix(sock))
 	opts := batched.Opts{BatchSize: uint32(a.N / 100000), BatchDelayMicros: uint32(a.N % 100000), EvaluationIntervalSec: 1}
+	if a.Mode == "flap" {
+		// let the pool's monitor add a connection at every evaluation (once a second): the retry bounds of
+		// the handler depend on the size of the pool
+		opts.LoadFactorExpandRatio = 0.0001
+	}
 	callers := a.Workers
 	variant := ""
 	if a.Sizes == "big" {
@@ -109,6 +114,38 @@ func poolChild(a Args) {
 			}
 		}()
 	}
+	if a.Mode == "flap" {
+		// a flapping backend: after the pool has grown to seven connections or more, windows of a second
+		// and a half in which the backend cuts every connection at its next request, before the reply
+		go func() {
+			select {
+			case <-stop:
+				return
+			case <-time.After(6500 * time.Millisecond):
+			}
+			many := make([]fakemc.Fault, 4000)
+			for i := range many {
+				many[i] = fakemc.Fault{N: i, Kind: "close_before"}
+			}
+			for {
+				st.Arm(many...)
+				mu.Lock()
+				cuts++
+				mu.Unlock()
+				select {
+				case <-stop:
+					return
+				case <-time.After(1500 * time.Millisecond): // longer than the retries of one call last
+				}
+				st.Arm()
+				select {
+				case <-stop:
+					return
+				case <-time.After(500 * time.Millisecond):
+				}
+			}
+		}()
+	}
 	t0 := time.Now()
 	for c := 0; c < callers; c++ {
 		wg.Add(1)
@@ -129,7 +166,7 @@ func poolChild(a Args) {
 			h := batched.NewHandler(sock, opts)
 			var lines []map[string]interface{}
 			lines = append(lines, map[string]interface{}{"ev": "reset", "cfg": fmt.Sprintf("pool/%s/bs%d/d%d/callers%d%s", a.Mode, opts.BatchSize, opts.BatchDelayMicros, callers, variant),
-				"proto": "call", "twotier": false, "trace": c, "seed": a.Seed, "retry": map[bool]int{true: 4, false: 0}[a.Mode == "cuts"]})
+				"proto": "call", "twotier": false, "trace": c, "seed": a.Seed, "retry": map[string]int{"cuts": 4, "flap": 16}[a.Mode]})
 			project := func() []interface{} {
 				t := st.LiveSnapshot()
 				out := stack.MMap{}
@@ -156,6 +193,9 @@ func poolChild(a Args) {
 				return []interface{}{"hit", w.ProjectOrCorrupt(data), w.FlagsBack(flags)}
 			}
 			for i := 0; i < a.Len; i++ {
+				if a.Mode == "flap" {
+					time.Sleep(20 * time.Millisecond) // the run has to last while the pool grows
+				}
 				k := keys[rng.Intn(len(keys))]
 				key := append([]byte(nil), w.Key(k)...)
 				var cmd MCmd
